@@ -6,9 +6,9 @@ from harness import core, pipeline
 
 def cfg(hist, quick):
     q = "q" if quick else ""
-    return ("CONSTANTS\n Shapes <- ShAll\n AVals <- AV%s\n BVals <- BV\n SVals <- SV%s\n LVals <- LV%s\n TVals <- TV%s\n SubVals <- SubV\n"
+    return ("CONSTANTS\n Shapes <- ShAll\n AVals <- AV%s\n BVals <- BV\n SVals <- SV%s\n LVals <- LV%s\n TVals <- TV%s\n SubVals <- SubV\n DVals <- DV%s\n DefAVals <- DefA\n"
             " NameVals <- NV\n RecordHist = %s\nINIT Init\nNEXT Next\nCHECK_DEADLOCK FALSE\n%s\n"
-            % (q, q, q, q, "TRUE" if hist else "FALSE", "INVARIANT Emit" if hist else "INVARIANT Rebuilds\nINVARIANT KeywordsOnlyWhenNeeded"))
+            % (q, q, q, q, q, "TRUE" if hist else "FALSE", "INVARIANT Emit" if hist else "INVARIANT Rebuilds\nINVARIANT KeywordsOnlyWhenNeeded"))
 
 
 def run(prop, tier, seed):
